@@ -285,6 +285,12 @@ impl<T: Tab + 'static> State<T> {
                 let d = arg_usize(op, "d");
                 let g = arg_str(op, "g");
                 let f = arg_str(op, "f");
+                if a == b && g != "not" && (f == "named" || f == "ref_ref") {
+                    // the two operands are one and the same object
+                    let r = T::logic_self(g, f, self.get(a));
+                    self.slots[d] = Some(r);
+                    return ok(vec![a, d], None);
+                }
                 let bv = self.get(b).clone();
                 let mut av = self.get(a).clone();
                 let r = T::logic(g, f, &mut av, &bv);
